@@ -247,7 +247,8 @@ def run_case(case):
         labels.append('idle-timeout')
     # ---- run every front-end of the variant
     fes = STREAM_FES if case['variant'] == 'stream' else DGRAM_FES
-    if case['variant'] == 'stream' and len(case['conns']) == 1:
+    if case['variant'] == 'stream' and len(case['conns']) == 1 and (single or all(r['uid'] in hosted for r in case['conns'][0]['requests'])):
+        # (requests to units that are not hosted stay with the TCP front-ends: C10 allows silence or a gateway exception there)
         # the threaded serial front-end (one line, hence one connection) is a stream front-end of the synchronous family too
         fes = fes + ['sync_serial']
         labels.append('with-serial-front-end')
